@@ -5,7 +5,8 @@
    callbacks of the run, oldest first.  fc/fp: arbitrary CheckParents / Process failure oracles. *)
 From Coq Require Import NArith List.
 From LV Require Import model.Buffer model.Processor spec.ProcessorSpec
-  proofs.ProcessorFrame proofs.ProcessorOrder.
+  proofs.ProcessorFrame proofs.ProcessorOrder proofs.ProcessorSem proofs.ProcessorRun
+  proofs.ProcessorDone proofs.ProcessorFar.
 Import ListNotations.
 Local Open Scope N_scope.
 
@@ -22,6 +23,62 @@ Theorem C15_ordered_in_order : forall fc fp cap_n cap_s lim_n lim_s h0 steps b,
   NoDup (all_g steps) -> In (SEnq b) steps -> b_ordered b = true ->
   exists k, handles_of (phist fc fp cap_n cap_s lim_n lim_s h0 steps) b = firstn k (gs b).
 Proof. exact ordered_in_order. Qed.
+
+(* no event copy is reported released twice, and only events of accepted batches are *)
+Theorem C15_released_at_most_once : forall fc fp cap_n cap_s lim_n lim_s h0 steps,
+  NoDup (all_g steps) ->
+  NoDup (relg (phist fc fp cap_n cap_s lim_n lim_s h0 steps))
+  /\ incl (relg (phist fc fp cap_n cap_s lim_n lim_s h0 steps))
+          (pgs (prun fc fp cap_n cap_s lim_n lim_s h0 steps)).
+Proof. exact released_at_most_once. Qed.
+
+(* the semaphore's warning callback never fires; what it holds = metric of accepted events minus
+   metric of released events (count and bytes) *)
+Theorem C15_sem_balanced : forall fc fp cap_n cap_s lim_n lim_s h0 steps,
+  NoDup (all_g steps) ->
+  let s := prun fc fp cap_n cap_s lim_n lim_s h0 steps in
+  warned s = false
+  /\ held_n s + N.of_nat (length (relg (plog s))) = N.of_nat (length (tab s))
+  /\ held_s s + wsum (size_of_g s) (relg (plog s)) = wsum (size_of_g s) (pgs s).
+Proof. exact sem_balanced. Qed.
+
+(* once stopped, every event that entered process() — processed, rejected, dropped as too far
+   ahead, spilled, duplicate, or still buffered at Stop — has been released exactly once *)
+Theorem C15_released_exactly_once_after_stop : forall fc fp cap_n cap_s lim_n lim_s h0 steps,
+  NoDup (all_g steps) ->
+  let s := prun fc fp cap_n cap_s lim_n lim_s h0 steps in
+  stopped s = true -> forall g, In g (Hd s) -> count_occ N.eq_dec (relg (plog s)) g = 1%nat.
+Proof. exact handled_released_after_stop. Qed.
+
+(* ... and the semaphore returns to zero when every accepted event was handled *)
+Theorem C15_sem_zero_after_stop : forall fc fp cap_n cap_s lim_n lim_s h0 steps,
+  NoDup (all_g steps) ->
+  let s := prun fc fp cap_n cap_s lim_n lim_s h0 steps in
+  stopped s = true -> incl (pgs s) (Hd s) -> held_n s = 0 /\ held_s s = 0.
+Proof. exact sem_zero_after_stop. Qed.
+
+(* every event of every batch that finished handling (its done() ran before Stop) has been
+   released exactly once by the time the processor is stopped, whatever its fate.
+   Extra hypothesis: batch ids are distinct (done() is identified by the batch id in the log). *)
+Theorem C15_finished_batch_released_once : forall fc fp cap_n cap_s lim_n lim_s h0 steps b,
+  NoDup (all_g steps) -> NoDup (map b_id (enq steps)) ->
+  let s := prun fc fp cap_n cap_s lim_n lim_s h0 steps in
+  In (SEnq b) steps -> In (PDone (b_id b)) (plog s) -> stopped s = true ->
+  forall g, In g (gs b) -> count_occ N.eq_dec (relg (plog s)) g = 1%nat.
+Proof. exact finished_batch_released_once. Qed.
+
+(* far-future rule: an event copy is handed to Process only if, when it entered process(), its
+   Lamport time was at most (highest Lamport time known then) + 1 + limit.Num — so an event more
+   than that ahead is never processed.  hl_of recomputes "highest known" from the history prefix:
+   the initial value and the Lamport times of the events processed successfully so far. *)
+Theorem C15_far_future : forall fc fp cap_n cap_s lim_n lim_s h0 steps,
+  NoDup (all_g steps) ->
+  let s := prun fc fp cap_n cap_s lim_n lim_s h0 steps in
+  forall pre g e ok post,
+    phist fc fp cap_n cap_s lim_n lim_s h0 steps = pre ++ PProcess g e ok :: post ->
+    exists pre1 pre2, pre = pre1 ++ PHandle g :: pre2
+                      /\ lam (tab s) g <= hl_of h0 (tab s) pre1 + 1 + lim_n.
+Proof. exact far_future. Qed.
 
 (* non-vacuity: an ordered batch of three events whose check results arrive as 2,0,1 while a
    second batch is enqueued in between; the events are handled as 0,1,2 *)
@@ -40,13 +97,23 @@ Example C15_nonvacuous :
     PHandle 2; PReleased 2 3 6; PDone 1;
     PHighest; PHandle 3; PDone 2;
     PReleased 3 4 4; PStopped ]
-  /\ held_n (prun (tbl_check []) (tbl_process []) 10 100 5 100 0 c15_steps) = 0.
+  /\ held_n (prun (tbl_check []) (tbl_process []) 10 100 5 100 0 c15_steps) = 0
+  /\ stopped (prun (tbl_check []) (tbl_process []) 10 100 5 100 0 c15_steps) = true
+  /\ Hd (prun (tbl_check []) (tbl_process []) 10 100 5 100 0 c15_steps) = [3; 2; 1; 0].
 Proof.
-  split; [|split].
+  split; [|split; [|split; [|split]]].
   - vm_compute. repeat (constructor; [simpl; intuition discriminate|]). constructor.
+  - vm_compute. reflexivity.
+  - vm_compute. reflexivity.
   - vm_compute. reflexivity.
   - vm_compute. reflexivity.
 Qed.
 
 Print Assumptions C15_sem_within_capacity.
 Print Assumptions C15_ordered_in_order.
+Print Assumptions C15_released_at_most_once.
+Print Assumptions C15_sem_balanced.
+Print Assumptions C15_released_exactly_once_after_stop.
+Print Assumptions C15_sem_zero_after_stop.
+Print Assumptions C15_finished_batch_released_once.
+Print Assumptions C15_far_future.
